@@ -160,7 +160,7 @@ def run(ctx):
     b = build.Builder()
     _EXE = b.harness('asan', 'decode', ['h_decode.c'])
     args = []
-    reps = 1 if ctx.tier == 'quick' else 6
+    reps = 4 if ctx.tier == 'quick' else 40
     for mi, m in enumerate(streams.ALL_METHODS):
         for r in range(reps):
             args.append((m, ctx.seed * 4001 + mi * 17 + r, ctx.tier))
